@@ -92,6 +92,7 @@ def run(ctx):
             continue
         evals += 1
         ic = T.norm_class(impl)
+        m = (m[0], T.split_spec(m[1])[0])
         if ic.startswith("ok"):
             defs_seen.add(crc)
             nontrivial.add(hashlib.sha1(g.encode()).hexdigest())
